@@ -647,19 +647,31 @@ end
 
 /-! ### Canonize and CommentsTransformer -/
 
-def symbolsetTok : Tok := ⟨s%"symbolset", s%"symbolset", .str s%"symbolset", .null, .null⟩
-
 mutual
-/-- `Canonize().transform(tree)` (in place): a `symbolset` tree becomes a `composite` whose type token is synthetic -/
+/-- `Canonize().transform(tree)` (in place): a `symbolset` tree becomes a `composite` whose type token is the SYMBOLSET
+keyword itself — `tree.children.pop(0)`, kept in the tree by `!start` (so that its position is recorded) -/
 def canonize : R → R
   | .tree data cm xs =>
       let xs' := canonizeL xs
-      if data = s%"symbolset" then .tree s%"composite" cm (.tree s%"composite_type" none [.tok symbolsetTok] :: xs')
+      if data = s%"symbolset" then
+        match xs' with
+        | k :: rest => .tree s%"composite" cm (.tree s%"composite_type" none [k] :: rest)
+        | [] => .tree s%"composite" cm []         -- `pop(0)` from an empty list: see `canonizable`
       else .tree data cm xs'
   | x => x
 def canonizeL : List R → List R
   | [] => []
   | x :: r => canonize x :: canonizeL r
+end
+
+mutual
+/-- no `symbolset` node without children (`pop(0)` would raise IndexError; the grammar never builds one) -/
+def canonizable : R → Bool
+  | .tree data _ xs => (data != s%"symbolset" || !xs.isEmpty) && canonizableL xs
+  | _ => true
+def canonizableL : List R → Bool
+  | [] => true
+  | x :: r => canonizable x && canonizableL r
 end
 
 def commentsJ (cm : Option (List Str)) : J := .list ((cm.getD []).map .str)
@@ -734,10 +746,12 @@ def comTL (cfg : Cfg) : List R → Res (List R)
 end
 
 /-- `MapfileToDict(include_position, include_comments).transform(tree)` -/
-def transform (cfg : Cfg) (tree : R) : Res R := do
-  let t := canonize tree
-  let t ← if cfg.com then comT cfg t else pure t
-  mainT cfg t
+def transform (cfg : Cfg) (tree : R) : Res R :=
+  if canonizable tree then do
+    let t := canonize tree
+    let t ← if cfg.com then comT cfg t else pure t
+    mainT cfg t
+  else .error .indexError
 
 /-- what the caller gets, as a plain value (`none`: not a dict / list of dicts) -/
 def resultJ : R → Option J
